@@ -207,6 +207,12 @@ def c11(run):
                 c2 = copy.deepcopy(c)
                 c2["in"]["metrics"] = True
                 out.append(c2)
+            if c["in"]["payload"] == "valid" and c["in"]["verifier"] in ("soft", "wrapSoft", "hard", "plain"):
+                # replay-only (same prediction): the header of the message accepted right before arrives once more in a
+                # distinct message and is refused by the verifier this time
+                c4 = copy.deepcopy(c)
+                c4["in"]["again"] = True
+                out.append(c4)
             if c["in"]["payload"] in ("invalid", "localInvalid", "undecodable"):
                 # replay-only: the header type reports its own Validate / decode failure as a soft VerifyError (still a reject)
                 c3 = copy.deepcopy(c)
